@@ -113,6 +113,10 @@ def run_case(case, w):
             exp[name] = disk_ref(i, vals, lay)
             if DEVS[name]:
                 w.mkdir("/sys/block/" + name.replace("/", "!"))
+                # a 4K-native drive: its logical sector size says nothing about /proc/diskstats, whose unit is always 512 bytes
+                w.mkdir("/sys/block/" + name.replace("/", "!") + "/queue")
+                w.set_file("/sys/block/" + name.replace("/", "!") + "/queue/hw_sector_size", b"4096\n")
+                w.set_file("/sys/block/" + name.replace("/", "!") + "/queue/logical_block_size", b"4096\n")
                 whole.append(name)
         w.set_file("/proc/diskstats", b"".join(lines))
         got = outcome(psutil.disk_io_counters, perdisk=True, nowrap=False)
